@@ -91,6 +91,9 @@ def accuracy_case(c):
         # FSC averages the correlation over all shells: a template with (numerically) empty high-frequency shells is
         # degenerate for it (those shells correlate rounding noise), so FSC cases use a broadband template
         t = (t + 0.2 * float(t.max()) * rng.normal(size=t.shape)).astype(np.float32)
+    if c.get("background"):
+        # sub-volume and template sit on the same non-zero background (a copy of the template, displaced)
+        t = (t + np.float32(c["background"]) * float(t.max())).astype(np.float32)
     img = displaced(t, d)
     M = {"zncc": ZNCCAlignment, "ncc": NCCAlignment, "pcc": PCCAlignment, "fsc": FSCAlignment}[c["model"]]
     kw = {}
@@ -111,6 +114,9 @@ def accuracy_case(c):
 
 
 DIRECTED = [
+    # FSC with a different search length on every axis (each axis needs its own phase table)
+    dict(model="fsc", shape=[14, 15, 16], max_shifts=[2.0, 1.0, 2.0], d=[1.0, -1.0, 2.0], seed=11, cutoff=None, tilt=None, rotvec=None, dkind="integer"),
+    dict(model="fsc", shape=[16, 14, 15], max_shifts=[1.0, 2.0, 1.5], d=[-1.0, 2.0, 1.0], seed=12, cutoff=None, tilt=None, rotvec=None, dkind="integer"),
     # reproducer of the recorded finding C04-fsc-half-integer-lag
     dict(model="fsc", shape=[14, 14, 14], max_shifts=[1.0, 1.0, 1.0], d=[0.35, 0.45, -0.1], seed=2098463371, cutoff=None, tilt=None, rotvec=None, dkind="small"),
 ]
@@ -148,7 +154,19 @@ def oracle_accuracy(ck, rng):
             d = np.array([np.floor(m * 20) / 20 * float(rng.choice([-1, 1])) for _ in range(3)])  # corner
         else:
             d = np.round(rng.uniform(-0.5, 0.5, size=3) * 20) / 20
-        c = dict(model=model, shape=shape, max_shifts=[m] * 3, d=[float(x) for x in d], seed=int(rng.integers(0, 2**31)),
+        ms = [m] * 3
+        if i % 3 == 1:
+            # anisotropic range: every axis has its own limit (and its own landscape length)
+            ms = [float(x) for x in rng.choice([1.0, 1.5, 2.0] if model == "fsc" else [1.0, 1.5, 2.0, 2.6, 3.0], size=3)]
+            d = np.clip(d, [-x for x in ms], ms)
+            if kind == 0:
+                d = np.trunc(d)          # still an integer displacement
+            if kind in (2, 3):
+                ax_ = int(rng.integers(0, 3)); d[ax_] = float(rng.choice([-1, 1])) * np.floor(ms[ax_] * 20) / 20
+            lo = int(np.ceil(2 * (max(ms) + 4.5)))
+            shape = [max(x, lo) for x in shape]
+        bg = float(rng.choice([0.0, 1.0, 2.0])) if model in ("ncc", "zncc") and i % 2 else 0.0
+        c = dict(model=model, shape=shape, max_shifts=ms, background=bg, d=[float(x) for x in d], seed=int(rng.integers(0, 2**31)),
                  cutoff=(0.45 if i % 7 == 0 else None), tilt=None, rotvec=((rng.normal(size=3) * 0.4).tolist() if i % 6 == 0 else None),
                  dkind=["integer", "fractional", "face", "corner", "small"][kind])
         _accuracy_one(ck, c)
